@@ -355,6 +355,74 @@ class CaseTimeout(BaseException):
     pass
 
 
+class GlueBroken(BaseException):
+    """the harness could not bind to the implementation (a private function it records was renamed, re-signed or is called
+    differently): the correspondence cannot be established, which is not an observation of the implementation's behaviour.
+    BaseException so that the implementation's own `except Exception` cannot swallow it."""
+
+
+_SIG = ("unexpected keyword argument", "positional argument", "required keyword-only argument", "multiple values for argument", "required positional")
+
+
+def _is_glue(e: BaseException) -> bool:
+    """did this exception arise in harness code (binding to a name or signature that is no longer there) rather than inside the
+    implementation?  A missing output file or an OS error is behaviour of the implementation and stays an observation."""
+    import traceback
+
+    if isinstance(e, GlueBroken):
+        return True
+    if isinstance(e, (OSError, CaseTimeout, KeyboardInterrupt, SystemExit, MemoryError)):
+        return False
+    tb = traceback.extract_tb(e.__traceback__)
+    if not tb:
+        return False
+    inner = tb[-1].filename
+    here = str(Path(__file__).resolve().parent)
+    if not inner.startswith(here):
+        return False
+    if isinstance(e, (AttributeError, ImportError, NameError)):
+        return True
+    if isinstance(e, TypeError) and any(x in str(e) for x in _SIG):
+        return True
+    return False
+
+
+class glue:
+    """`with glue("what"):` around the harness's own bookkeeping inside a recorder: anything that goes wrong there means the
+    recorder no longer fits the code it records"""
+
+    def __init__(self, what):
+        self.what = what
+
+    def __enter__(self):
+        return self
+
+    def __exit__(self, et, e, tb):
+        if e is not None and isinstance(e, Exception):
+            raise GlueBroken(f"{self.what}: {et.__name__}: {e}") from e
+        return False
+
+
+def bind_args(orig, a, k):
+    """arguments of a recorded call by parameter name; raises GlueBroken when the recorded function no longer has the
+    parameters the recorder was written for"""
+    import inspect
+
+    try:
+        b = inspect.signature(orig).bind(*a, **k)
+        b.apply_defaults()
+        return b.arguments
+    except TypeError as e:
+        raise GlueBroken(f"cannot bind the call of {getattr(orig, '__name__', orig)}: {e}")
+
+
+def need(args, *names):
+    try:
+        return [args[n] for n in names]
+    except KeyError as e:
+        raise GlueBroken(f"recorded function has no parameter {e}")
+
+
 CASE_TIMEOUT = float(os.environ.get("VERIF_CASE_TIMEOUT", "20"))
 _timeouts = [0]
 
@@ -380,6 +448,8 @@ def guarded(fn, *a, **kw):
         _timeouts[0] += 1
         return {"error": "timeout", "msg": f"did not finish within {CASE_TIMEOUT}s"}
     except BaseException as e:  # noqa
+        if _is_glue(e):
+            return {"error": "harness_glue", "glue": True, "msg": f"{type(e).__name__}: {e}"[:300]}
         o = err_obs(e)
         o["msg"] = (str(e) or "")[:200]
         return o
